@@ -73,10 +73,10 @@ Proof.
     + reflexivity.
 Qed.
 
-Lemma att_fail_all (q : list (nat * nat)) t ws :
-  attempts_rev (rev (map (fun p : nat * nat => EFail (snd p)) q) ++ t) ws = attempts_rev t ws.
+Lemma att_fail_all (l : list nat) t ws :
+  attempts_rev (rev (map EFail l) ++ t) ws = attempts_rev t ws.
 Proof.
-  revert t; induction q as [|[idx id] q IH]; intros t; simpl; auto.
+  revert t; induction l as [|id l IH]; intros t; simpl; auto.
   rewrite <- app_assoc, IH. reflexivity.
 Qed.
 
@@ -95,7 +95,7 @@ Lemma att_resolve_loop : forall q dn t ws,
   attempts_rev (snd (resolve_loop q dn t)) ws = attempts_rev t ws.
 Proof.
   induction q as [|[idx id] q IH]; intros dn t ws; simpl; auto.
-  destruct (dn <? idx); simpl; auto. rewrite IH. reflexivity.
+  destruct (dn <? idx); simpl; auto. rewrite IH. destruct (cancelled_in id t); reflexivity.
 Qed.
 
 Lemma att_resolve s ws : attempts_rev (tr (resolve s)) ws = attempts_rev (tr s) ws.
@@ -132,7 +132,7 @@ Lemma att_do_op o s ws :
   dead s = false -> attempts_rev (tr s) ws = true ->
   attempts_rev (tr (do_op o s)) (match o with OWrite d => d :: ws | _ => ws end) = true.
 Proof.
-  intros Hd H. unfold do_op. rewrite Hd. destruct o as [d| |].
+  intros Hd H. unfold do_op. rewrite Hd. destruct o as [d| | |cid].
   - assert (X : attempts_rev (tr (do_write d s)) (d :: ws) = true).
     { unfold do_write. destruct (closed s); [exact H|]. destruct (is_full s d); [exact H|].
       match goal with |- context [handle_write ?s1] => set (s1' := s1) end.
@@ -153,6 +153,9 @@ Proof.
   - assert (X : attempts_rev (tr (close_stream (emit EClose s))) ws = true)
       by (rewrite att_close; exact H).
     destruct (dead (close_stream (emit EClose s))); [exact X|]. rewrite att_snapshot. exact X.
+  - assert (X : attempts_rev (tr (do_cancel cid s)) ws = true)
+      by (unfold do_cancel; destruct (existsb _ _); exact H).
+    destruct (dead (do_cancel cid s)); [exact X|]. rewrite att_snapshot. exact X.
 Qed.
 
 Lemma att_run_ops : forall ops s ws,
@@ -162,7 +165,7 @@ Proof.
   induction ops as [|o ops IH]; intros s ws HI H; simpl; auto.
   pose proof (Inv_do_op o s HI) as HI'. destruct HI as [(Hd & _) _].
   pose proof (att_do_op o s ws Hd H) as H'.
-  destruct o as [d| |]; simpl; try (apply IH; auto).
+  destruct o as [d| | |cid]; simpl; try (apply IH; auto).
   rewrite <- app_assoc. simpl. apply IH; auto.
 Qed.
 
